@@ -64,7 +64,8 @@ Record tg_case := mk_tg {
 
 (** two runs related by [tp_kind]: "same" (equal inputs / permuted histories /
     renumbered registry: outputs must be token-identical), or a switch name *)
-Record tg_pair := mk_pair { tp_kind : string; tp_a : tg_case; tp_b : tg_case }.
+Record tg_pair := mk_pair { tp_kind : string; tp_a : tg_case; tp_b : tg_case;
+                            tp_perm : list N }.  (* "renumbered": entry j of b is entry (tp_perm j) of a *)
 
 Definition model_items (r : registry) (s : settings) : result items :=
   generate r s (types_equal r).
